@@ -49,7 +49,7 @@ class Sim:
         from asynkit.experimental.priority import PriorityCondition, PriorityLock
         from asynkit.experimental.interrupt import InterruptCondition
         self.case = case
-        self.w = World(case.get("loop", "stock"), boost_factor=0.0)
+        self.w = World(case.get("loop", "stock"), boost_factor=None if case.get("boost") == "default" else 0.0)
         self.loop = self.w.loop
         self.log = []
         self.nblocks = 0
